@@ -84,7 +84,8 @@ impl Loop {
             i: from,
             from,
             to,
-            step,
+            // IG219: "step value, positive number only" - a step of 0 would never reach `to`
+            step: step.max(1),
             delay,
             command,
             parsed_string,
